@@ -13,7 +13,8 @@ explicit; the code uses `1e-7`, the executed instance `epsQ = 1/10^7`).
 generic ones.
 
 Vocabulary (all definitions are executable):
-* `positioned a`            : the atom has a position (`subnode.get('position') is not None`);
+* `Atom.pos a`              : the position of the atom if it has one (`selector_has_position`: attribute
+                              present, not `None`, EVERY coordinate finite), `positioned a` = it has one;
 * `atomWeight w tbl a`      : `mapping_weights.get(key, 1) * subnode.get(w, 1)` (model function);
 * `totalWeight w g mw`      : Σ over the positioned atoms of `g` of their weight;
 * `weightedSum c w g mw`    : Σ over the positioned atoms of weight × coordinate `c` of the position;
@@ -232,8 +233,7 @@ theorem rigid_motion_equivariant {eps : K} (heps : 0 < eps) (w : Option String) 
     rw [List.map_map]
     apply List.map_congr_left
     intro a _
-    cases a with
-    | mk k pos attrs => cases pos <;> rfl
+    exact (Atom.move_move m.apply (fun p => p.add v) a).symm
   rw [hcomp, translate_equivariant heps, linear_equivariant, Option.map_map]
   rfl
 
@@ -259,6 +259,28 @@ theorem unpositioned_weight_irrelevant (eps : K) (w w' : Option String) (g : Lis
   unfold beadPos
   simp only [Option.getD_some]
   rw [terms_congr w w' tbl tbl' g h]
+
+/-- **Partly defined coordinates count as no coordinates**: an atom one of whose coordinates is
+not a finite number (`[1, nan, 2]`, an `inf` component) has no position, so by
+`unpositioned_insert` it never contributes, whatever its weight. -/
+theorem partly_defined_unpositioned (a : Atom K) (c : V3 (Option K)) (h : a.coords = some c)
+    (hc : c.x = none ∨ c.y = none ∨ c.z = none) : a.pos = none :=
+  (Atom.pos_eq_none_iff a).mpr (Or.inr ⟨c, h, hc⟩)
+
+theorem partly_defined_ignored (eps : K) (w : Option String) (g1 g2 : List (Atom K)) (a : Atom K)
+    (mw : Option (List (Int × K))) (c : V3 (Option K)) (h : a.coords = some c)
+    (hc : c.x = none ∨ c.y = none ∨ c.z = none) :
+    beadPos eps w (g1 ++ a :: g2) mw = beadPos eps w (g1 ++ g2) mw :=
+  unpositioned_insert eps w g1 g2 a mw (partly_defined_unpositioned a c h hc)
+
+/-- exactly the atoms with all three coordinates finite are positioned -/
+theorem positioned_iff (a : Atom K) :
+    positioned a = true ↔ ∃ x y z, a.coords = some ⟨some x, some y, some z⟩ := by
+  unfold positioned
+  rw [Option.isSome_iff_exists]
+  constructor
+  · rintro ⟨p, hp⟩; exact ⟨p.x, p.y, p.z, (Atom.pos_eq_some_iff a p).mp hp⟩
+  · rintro ⟨x, y, z, h⟩; exact ⟨⟨x, y, z⟩, (Atom.pos_eq_some_iff a _).mpr h⟩
 
 /-! ## which weight goes with which atom -/
 
@@ -349,6 +371,19 @@ theorem runMolecule_weight (eps : K) (ffVar : Option String) (ign : Bool) (mol :
     runMolecule eps .off ffVar ign mol = doAverageBead eps mol ign none ∧
     runMolecule eps (.attr n) ffVar ign mol = doAverageBead eps mol ign (some n) := ⟨rfl, rfl, rfl⟩
 
+/-- **The processor is stateless**: one `DoAverageBead` object applied to several molecules in a
+row (whose force fields may set different `center_weight` variables, or none) gives on each
+molecule what a freshly constructed processor with the same two arguments gives on that molecule
+alone; nothing is remembered from earlier molecules. -/
+theorem processor_stateless (eps : K) (p : Proc) (ops : List (Option String × List (Bead K))) :
+    runHistory eps p ops = ops.map (fun op => runMolecule eps p.weight op.1 p.ignoreMissing op.2) := by
+  induction ops with
+  | nil => rfl
+  | cons op ops ih => simp only [runHistory, procStep, List.map_cons, ih]
+
+theorem processor_config_unchanged (eps : K) (p : Proc) (op : Option String × List (Bead K)) :
+    (procStep eps p op).1 = p := rfl
+
 end spec
 
 /-! ## the executed instance -/
@@ -358,7 +393,8 @@ instantiated with the field and order structure of `ℚ` (checked by definitiona
 theorem model_is_instance :
     (beadPosQ = fun w g mw => beadPos (K := ℚ) epsQ w g mw) ∧
     (doAverageBeadQ = fun mol ign w => doAverageBead (K := ℚ) epsQ mol ign w) ∧
-    (runMoleculeQ = fun s v ign mol => runMolecule (K := ℚ) epsQ s v ign mol) := ⟨rfl, rfl, rfl⟩
+    (runMoleculeQ = fun s v ign mol => runMolecule (K := ℚ) epsQ s v ign mol) ∧
+    (runHistoryQ = fun p ops => runHistory (K := ℚ) epsQ p ops) := ⟨rfl, rfl, rfl, rfl⟩
 
 theorem epsQ_pos : (0 : ℚ) < epsQ := by decide +kernel
 
@@ -374,9 +410,11 @@ theorem beadPosQ_in_bounding_box (w : Option String) (g : List (Atom ℚ)) (mw :
 /-! ## witnesses: hypotheses are satisfiable, and pairing matters -/
 
 namespace Ex
-def a1 : Atom ℚ := ⟨5, some ⟨1, 2, 3⟩, [("mass", 12)]⟩
-def a2 : Atom ℚ := ⟨7, some ⟨3, 4, 5⟩, [("mass", 1)]⟩
+def a1 : Atom ℚ := .at 5 ⟨1, 2, 3⟩ [("mass", 12)]
+def a2 : Atom ℚ := .at 7 ⟨3, 4, 5⟩ [("mass", 1)]
 def a3 : Atom ℚ := ⟨9, none, [("mass", 16)]⟩
+/-- position `[1, nan, 2]` -/
+def a4 : Atom ℚ := ⟨11, some ⟨some 1, none, some 2⟩, [("mass", 16)]⟩
 def g : List (Atom ℚ) := [a1, a3, a2]
 def tbl : List (Int × ℚ) := [(7, 3), (5, 1), (9, 2)]
 /-- the same weight VALUES attached to the other keys -/
@@ -413,5 +451,21 @@ theorem zero_weight_witness :
     beadPosQ none [a3] none = none ∧
     beadPosQ none [] none = none := by
   refine ⟨by decide +kernel, by decide +kernel, by decide +kernel, by decide +kernel, by decide +kernel⟩
+
+open Ex in
+/-- an atom with position `[1, nan, 2]` does not contribute, even with a large weight -/
+theorem partly_defined_witness :
+    beadPosQ none [a1, a4, a3, a2] (some ((11, 100) :: tbl)) = beadPosQ none g (some tbl) ∧
+    beadPosQ (some "mass") [a4] none = none := by
+  refine ⟨by decide +kernel, by decide +kernel⟩
+
+open Ex in
+/-- one processor object (`weight=None`), first a molecule whose force field sets
+`center_weight = "mass"`, then the same molecule under a force field that sets none: the second
+result is the unweighted one, not the mass-weighted one again -/
+theorem stateless_witness :
+    runHistoryQ ⟨false, .unset⟩ [(some "mass", [⟨some g, some tbl⟩]), (none, [⟨some g, some tbl⟩])]
+      = [.ok [some (some ⟨7 / 5, 12 / 5, 17 / 5⟩)], .ok [some (some ⟨5 / 2, 7 / 2, 9 / 2⟩)]] := by
+  decide +kernel
 
 end C09
